@@ -127,8 +127,32 @@ TABLE = {
         edits=[], appended=[], callee=lambda c: c[: -len("warn")] + "warning" if c.endswith("warn") else None,
         added=C(warning=2), removed=C(warn=2, G=2, **{"as": 1}),
     ),
+    #  ---- detector-less hardening codemods (results=None: the transformer finds its own sites)
+    "fix-math-isclose": dict(
+        detectorless=True, mod="math", fn="isclose", pool=["a, 0", "0, h(b)", "a, 0, rel_tol=1e-3", "0.0, b, rel_tol=t, **k"],
+        edits=[], appended=["abs_tol=1e-09"], added=C(abs_tol=1, **{"1e-09": 1}), removed=C(),
+    ),
+    "timezone-aware-datetime": dict(
+        detectorless=True, mod=None, fn=None, pool=[""],
+        forms=[("import datetime", "datetime.datetime.utcnow"), ("import datetime as al", "al.datetime.utcnow"), ("from datetime import datetime", "datetime.utcnow"), ("from datetime import datetime as G", "G.utcnow")],
+        edits=[], appended=["tz=datetime.timezone.utc", "tz=al.timezone.utc", "tz=timezone.utc"],
+        callee=lambda c: c[: -len("utcnow")] + "now",
+        added=C(now=1, tz=1, datetime=1, al=1, timezone=2, utc=1, **{"import": 1, "from": 1}), removed=C(utcnow=1),
+    ),
+    "timezone-aware-datetime/fromtimestamp": dict(
+        detectorless=True, codemod="timezone-aware-datetime", mod=None, fn=None, pool=["ts", "h(ts)"],
+        forms=[("import datetime", "datetime.datetime.utcfromtimestamp"), ("import datetime as al", "al.datetime.utcfromtimestamp"), ("from datetime import datetime", "datetime.utcfromtimestamp"), ("from datetime import datetime as G", "G.utcfromtimestamp")],
+        edits=[], appended=["tz=datetime.timezone.utc", "tz=al.timezone.utc", "tz=timezone.utc"],
+        callee=lambda c: c[: -len("utcfromtimestamp")] + "fromtimestamp",
+        added=C(fromtimestamp=1, tz=1, datetime=1, al=1, timezone=2, utc=1, **{"import": 1, "from": 1}), removed=C(utcfromtimestamp=1),
+    ),
+    "secure-tempfile": dict(
+        detectorless=True, shape="with", mod="tempfile", fn="mktemp", pool=["", "'s'", "'s', 'p'", "prefix='p'", "dir='d', suffix='s'", "'s', dir='d'"],
+        edits=[], appended=[], added=C(), removed=C(),
+    ),
 }
 ORDER = sorted(TABLE)
+DETECTORLESS = ["fix-math-isclose", "timezone-aware-datetime", "timezone-aware-datetime/fromtimestamp", "secure-tempfile"]
 SAST_A = ["add-requests-timeouts", "django-json-response-type", "enable-jinja2-autoescape", "harden-pyyaml", "harden-ruamel"]
 SAST_B = ["jwt-decode-verify", "limit-readline", "requests-verify", "safe-lxml-parser-defaults", "safe-lxml-parsing"]
 SAST_C = ["sandbox-process-creation", "secure-flask-cookie", "secure-random"]
@@ -153,7 +177,12 @@ def build(name, style: int, args: int, decoy: int, layout: int):
     mod, fn = e["mod"], e["fn"]
     a = sel(e["pool"], args)
     lines = list(e.get("prelude", []))
-    if mod is None:
+    st = 0
+    if "forms" in e:
+        imp, callee = sel(e["forms"], style)
+        st = style % len(e["forms"])
+        lines.append(imp)
+    elif mod is None:
         callee = fn
     else:
         st = sel(e.get("styles", [0, 1, 2, 3]), style)
@@ -185,12 +214,14 @@ def build(name, style: int, args: int, decoy: int, layout: int):
     if layout % 3 == 2:
         lines.append(ind + "return r")
     keep = []
+    if decoy % 3 == 1 and e.get("detectorless"):
+        decoy = 2  # a detector-less codemod legitimately rewrites an identical second call
     if decoy % 3 == 1:
         keep = ["q = %s(%s)" % (callee, a)]
     elif decoy % 3 == 2:
         keep = ["q = print(%s)" % a.replace("*a", "1")]
     lines += keep
-    return "\n".join(lines) + "\n", callee, a, keep, ("al" if mod is not None and st == 1 else mod)
+    return "\n".join(lines) + "\n", callee, a, keep, ("al" if (mod is not None or "forms" in e) and st == 1 else mod)
 
 
 def _split_args(a):
@@ -255,7 +286,14 @@ def _position(src, call_code_start):
 
 
 def run(name, src):
-    cm = _reg()["pixee:python/" + name]
+    e = TABLE[name]
+    cm = _reg()["pixee:python/" + e.get("codemod", name)]
+    if e.get("detectorless"):
+        fc = FileContext(Path("/d"), Path("/d/m.py"), [], [], None)
+        tree = cst.parse_module(src)
+        for t in cm.transformer.transformers:
+            tree = t.transform(tree, None, fc)
+        return tree.code, fc
     sl, sc, el, ec = _position(src, None)
     rule = "r"
     res = [_R(rule_id=rule, locations=[_L(file=Path("m.py"), start=LineInfo(sl, sc + 1), end=LineInfo(el, ec + 1))], finding=Finding(id="F", rule=Rule(id=rule, name="n", url=None)))]
@@ -301,6 +339,8 @@ def check(name, style, args, decoy, layout):
         for k in keep:
             if k not in out_lines:
                 return "a statement the detector did not report changed (%r):\n%s" % (k, out)
+        if e.get("shape") == "with":
+            return _check_tempfile(out, a)
         tb, ta = _tokens(src), _tokens(out)
         added, removed = ta - tb, tb - ta
         bad_add = added - e["added"]
@@ -324,7 +364,7 @@ def check(name, style, args, decoy, layout):
             want_callee = e["callee"](callee) if "callee" in e else callee
             if want_callee is not None and ast.unparse(call.func) != want_callee:
                 return "callee %r, documented %r:\n%s" % (ast.unparse(call.func), want_callee, out)
-        extra = [_one(x.replace("{M}", m)) for x in e["appended"] for m in ((spelled, e["mod"]) if spelled else ("",))]
+        extra = [_one(x.replace("{M}", m)) for x in e["appended"] for m in ((spelled, e["mod"] or spelled) if spelled else ("",))]
         it = iter(got)
         exp = [x if isinstance(x, tuple) else (x,) for x in exp]
         if not all(any(g in x for g in it) for x in exp):
@@ -337,6 +377,38 @@ def check(name, style, args, decoy, layout):
         if len(fc.codemod_changes) != 1:
             return "%d change entries for one hardened call" % len(fc.codemod_changes)
         return None
+
+
+def _check_tempfile(out, a):
+    """secure-tempfile's documented edit: `r = tempfile.mktemp(ARGS)` becomes
+    `with tempfile.NamedTemporaryFile(ARGS as keywords, delete=False) as tf: r = tf.name` - suffix / prefix / dir keep
+    their meaning (positional i -> the i-th of suffix, prefix, dir; a keyword keeps its name)."""
+    call = ast.parse("f(%s)" % a).body[0].value
+    exp = {}
+    for i, x in enumerate(call.args):
+        exp[("suffix", "prefix", "dir")[i]] = ast.literal_eval(x)
+    for k in call.keywords:
+        exp[k.arg] = ast.literal_eval(k.value)
+    exp["delete"] = False
+    for node in ast.walk(ast.parse(out)):
+        if isinstance(node, ast.With) and len(node.items) == 1 and isinstance(node.items[0].context_expr, ast.Call):
+            c = node.items[0].context_expr
+            if ast.unparse(c.func) != "tempfile.NamedTemporaryFile":
+                continue
+            var = node.items[0].optional_vars
+            body_ok = any(isinstance(b, ast.Assign) and ast.unparse(b.targets[0]) == "r" and var is not None and ast.unparse(b.value) == ast.unparse(var) + ".name" for b in node.body)
+            if not body_ok:
+                return "the with block does not bind r to the temporary file's name:\n" + out
+            if c.args:
+                return "positional arguments passed to NamedTemporaryFile (its first parameter is `mode`):\n" + out
+            try:
+                got = {k.arg: ast.literal_eval(k.value) for k in c.keywords}
+            except Exception:  # noqa
+                return "non-literal keyword in\n" + out
+            if got != exp:
+                return "mktemp arguments not carried over faithfully: expected %r, got %r\n%s" % (exp, got, out)
+            return None
+    return "no `with tempfile.NamedTemporaryFile(..)` block in\n" + out
 
 
 def _one(argtext):
